@@ -706,6 +706,15 @@ func c19(r *h.Result, rng *h.Rng, tier string, replay string) error {
 		if err != nil {
 			return err
 		}
+		var ck struct {
+			Replay c19CChain `json:"replay"`
+		}
+		if err := json.Unmarshal(b, &ck); err == nil && strings.HasPrefix(ck.Replay.Kind, "cluster:") {
+			r.Stream("replay of one cluster chain")
+			cx := &c19CRunner{r: r, keys: keys}
+			cx.run(ck.Replay)
+			return cx.flush()
+		}
 		var f struct {
 			Replay c19Chain `json:"replay"`
 		}
@@ -813,6 +822,9 @@ func c19(r *h.Result, rng *h.Rng, tier string, replay string) error {
 		}
 	}
 	if err := x.flush(); err != nil {
+		return err
+	}
+	if err := c19Cluster(r, rng.Fork(), tier, keys); err != nil {
 		return err
 	}
 	r.Exhaustive = true
